@@ -57,7 +57,7 @@ type Company struct {
 	ID       uint `gorm:"primaryKey"`
 	Name     string
 	RegionID *uint
-	Region   *Region
+	Region   Region // belongs-to held by value (skipped while zero)
 }
 
 type Profile struct {
@@ -77,12 +77,29 @@ type Item struct {
 	OwnerID uint
 	Name    string
 	Qty     int
-	Parts   []Part
+	Parts   []*Part // has-many of pointers
 }
 
 type Tag struct {
-	ID   uint `gorm:"primaryKey"`
-	Name string
+	ID     uint `gorm:"primaryKey"`
+	Name   string
+	Owners []*Owner `gorm:"many2many:owner_tags"` // back-reference: an owner's tag may point back to it (cycle)
+}
+
+// Badge: polymorphic has-one held by value.
+type Badge struct {
+	ID          uint `gorm:"primaryKey"`
+	SubjectID   uint
+	SubjectType string
+	Label       string
+}
+
+// OwnerTag is the join model cases may install with SetupJoinTable (it has
+// hooks, the generated join model has none); its table always exists.
+type OwnerTag struct {
+	OwnerID uint `gorm:"primaryKey"`
+	TagID   uint `gorm:"primaryKey"`
+	Note    string
 }
 
 type Note struct {
@@ -105,6 +122,7 @@ type Owner struct {
 	Items     []Item
 	Tags      []*Tag `gorm:"many2many:owner_tags"`
 	Notes     []Note `gorm:"polymorphic:Subject"`
+	Badge     Badge  `gorm:"polymorphic:Subject"`
 }
 
 // Audit rows are written by the hooks of Owner when the case asks for it
@@ -114,12 +132,12 @@ type Audit struct {
 	Msg string
 }
 
-var allModels = []interface{}{&Region{}, &Company{}, &Owner{}, &Profile{}, &Item{}, &Part{}, &Tag{}, &Note{}, &Audit{}}
+var allModels = []interface{}{&Region{}, &Company{}, &Owner{}, &Profile{}, &Item{}, &Part{}, &Tag{}, &Note{}, &Badge{}, &Audit{}}
 
 // tables in dump order with their ORDER BY.
 var tables = []struct{ name, order string }{
 	{"regions", "id"}, {"companies", "id"}, {"owners", "id"}, {"profiles", "id"}, {"items", "id"},
-	{"parts", "id"}, {"tags", "id"}, {"notes", "id"}, {"owner_tags", "owner_id, tag_id"}, {"audits", "id"},
+	{"parts", "id"}, {"tags", "id"}, {"notes", "id"}, {"badges", "id"}, {"owner_tags", "owner_id, tag_id"}, {"audits", "id"},
 }
 
 // ---- hook plan ---------------------------------------------------------------------------------
@@ -249,6 +267,23 @@ func (*Owner) AfterSave(tx *gorm.DB) error      { return hook(tx, "Owner", "Afte
 func (*Owner) BeforeDelete(tx *gorm.DB) error   { return hook(tx, "Owner", "BeforeDelete") }
 func (*Owner) AfterDelete(tx *gorm.DB) error    { return hook(tx, "Owner", "AfterDelete") }
 
+func (*Badge) BeforeSave(tx *gorm.DB) error      { return hook(tx, "Badge", "BeforeSave") }
+func (*Badge) BeforeCreate(tx *gorm.DB) error    { return hook(tx, "Badge", "BeforeCreate") }
+func (*Badge) AfterCreate(tx *gorm.DB) error     { return hook(tx, "Badge", "AfterCreate") }
+func (*Badge) BeforeUpdate(tx *gorm.DB) error    { return hook(tx, "Badge", "BeforeUpdate") }
+func (*Badge) AfterUpdate(tx *gorm.DB) error     { return hook(tx, "Badge", "AfterUpdate") }
+func (*Badge) AfterSave(tx *gorm.DB) error       { return hook(tx, "Badge", "AfterSave") }
+func (*Badge) BeforeDelete(tx *gorm.DB) error    { return hook(tx, "Badge", "BeforeDelete") }
+func (*Badge) AfterDelete(tx *gorm.DB) error     { return hook(tx, "Badge", "AfterDelete") }
+func (*OwnerTag) BeforeSave(tx *gorm.DB) error   { return hook(tx, "OwnerTag", "BeforeSave") }
+func (*OwnerTag) BeforeCreate(tx *gorm.DB) error { return hook(tx, "OwnerTag", "BeforeCreate") }
+func (*OwnerTag) AfterCreate(tx *gorm.DB) error  { return hook(tx, "OwnerTag", "AfterCreate") }
+func (*OwnerTag) BeforeUpdate(tx *gorm.DB) error { return hook(tx, "OwnerTag", "BeforeUpdate") }
+func (*OwnerTag) AfterUpdate(tx *gorm.DB) error  { return hook(tx, "OwnerTag", "AfterUpdate") }
+func (*OwnerTag) AfterSave(tx *gorm.DB) error    { return hook(tx, "OwnerTag", "AfterSave") }
+func (*OwnerTag) BeforeDelete(tx *gorm.DB) error { return hook(tx, "OwnerTag", "BeforeDelete") }
+func (*OwnerTag) AfterDelete(tx *gorm.DB) error  { return hook(tx, "OwnerTag", "AfterDelete") }
+
 // ---- record graph specifications (plain data; a fresh struct graph is built from them per run) ---
 
 type RegionSpec struct {
@@ -280,8 +315,9 @@ type ItemSpec struct {
 }
 
 type TagSpec struct {
-	ID   uint   `json:"id"`
-	Name string `json:"n"`
+	ID      uint   `json:"id"`
+	Name    string `json:"n"`
+	BackRef bool   `json:"backref,omitempty"` // tag.Owners = [the owner holding the tag]
 }
 
 type NoteSpec struct {
@@ -299,10 +335,18 @@ type OwnerSpec struct {
 	Items   []ItemSpec   `json:"items,omitempty"`
 	Tags    []TagSpec    `json:"tags,omitempty"`
 	Notes   []NoteSpec   `json:"notes,omitempty"`
+	Badge   string       `json:"badge,omitempty"` // label of the polymorphic has-one ("" = none)
 }
 
 func (s OwnerSpec) build() *Owner {
-	o := &Owner{ID: s.ID, Name: s.Name, Val: s.Val}
+	o := &Owner{}
+	s.buildInto(o)
+	return o
+}
+
+// buildInto fills o in place (back-references point at o itself).
+func (s OwnerSpec) buildInto(o *Owner) {
+	*o = Owner{ID: s.ID, Name: s.Name, Val: s.Val}
 	if s.Code != "" {
 		code := s.Code
 		o.Code = &code
@@ -310,7 +354,7 @@ func (s OwnerSpec) build() *Owner {
 	if c := s.Company; c != nil {
 		o.Company = &Company{ID: c.ID, Name: c.Name}
 		if r := c.Region; r != nil {
-			o.Company.Region = &Region{ID: r.ID, Name: r.Name}
+			o.Company.Region = Region{ID: r.ID, Name: r.Name}
 		}
 	}
 	if p := s.Profile; p != nil {
@@ -319,17 +363,23 @@ func (s OwnerSpec) build() *Owner {
 	for _, it := range s.Items {
 		item := Item{ID: it.ID, Name: it.Name, Qty: it.Qty}
 		for _, pt := range it.Parts {
-			item.Parts = append(item.Parts, Part{ID: pt.ID, Name: pt.Name})
+			item.Parts = append(item.Parts, &Part{ID: pt.ID, Name: pt.Name})
 		}
 		o.Items = append(o.Items, item)
 	}
 	for _, tg := range s.Tags {
-		o.Tags = append(o.Tags, &Tag{ID: tg.ID, Name: tg.Name})
+		tag := &Tag{ID: tg.ID, Name: tg.Name}
+		if tg.BackRef {
+			tag.Owners = []*Owner{o}
+		}
+		o.Tags = append(o.Tags, tag)
 	}
 	for _, nt := range s.Notes {
 		o.Notes = append(o.Notes, Note{ID: nt.ID, Text: nt.Text})
 	}
-	return o
+	if s.Badge != "" {
+		o.Badge = Badge{Label: s.Badge}
+	}
 }
 
 // shape labels of a graph.
@@ -357,6 +407,17 @@ func (s OwnerSpec) shapes(into map[string]bool) {
 	if len(s.Notes) > 0 {
 		into["rel:polymorphic"] = true
 	}
+	if s.Badge != "" {
+		into["rel:polymorphic-has-one-value"] = true
+	}
+	for _, tg := range s.Tags {
+		if tg.BackRef {
+			into["rel:many2many-back-reference"] = true
+		}
+	}
+	if len(s.Items) > 10 || len(s.Tags) > 10 || len(s.Notes) > 10 {
+		into["size:>10-children"] = true
+	}
 }
 
 // InitSpec is the initial database content: loose rows plus owner graphs, all
@@ -373,6 +434,16 @@ type Op struct {
 	NoReturning bool        `json:"noreturning,omitempty"` // dialector without RETURNING support
 	Audit       bool        `json:"audit,omitempty"`       // Owner hooks write an audit row through their handle
 	AuditVia    string      `json:"auditvia,omitempty"`    // "session": the audit row is created through tx.Session(NewDB+SkipDefaultTransaction)
+	Conflict    string      `json:"conflict,omitempty"`    // create kinds: Clauses(clause.OnConflict{...}): nothing | update-all | columns
+	Cols        []string    `json:"cols,omitempty"`        // create/save/updates: Select(cols)
+	Omit        []string    `json:"omit,omitempty"`        // create/save/updates: Omit(cols)
+	BatchVia    string      `json:"batchvia,omitempty"`    // CreateBatchSize set through "session" or "config" (Create then runs in batches, association inserts too)
+	FullVia     string      `json:"fullvia,omitempty"`     // updates-full: FullSaveAssociations through Config instead of Session
+	Config      []string    `json:"config,omitempty"`      // gorm.Config switches that must be transparent: PrepareStmt, TranslateError
+	InTx        bool        `json:"intx,omitempty"`        // CreateInBatches inside db.Transaction (its own transaction becomes a SAVEPOINT)
+	Hist        []string    `json:"hist,omitempty"`        // writes made through the handle before the operation: prior-write | prior-failed-write
+	Plugin      bool        `json:"plugin,omitempty"`      // callbacks registered into the create/update/delete pipelines; they fail like hooks
+	CustomJoin  bool        `json:"customjoin,omitempty"`  // SetupJoinTable(Owner.Tags / Tag.Owners, &OwnerTag{}): join rows go through a model with hooks
 	Returning   bool        `json:"returning,omitempty"`   // update/delete/save with Clauses(clause.Returning{}): the main statement runs as a query
 	Pre         []PreStep   `json:"pre,omitempty"`         // sessions derived from the handle (and maybe used for a read) before the operation
 	Ctx         bool        `json:"ctx,omitempty"`         // run on db.WithContext(cancellable context); hooks may cancel it
@@ -459,18 +530,21 @@ const (
 	kSave          = "save"
 	kSaveMissing   = "save-missing-row"
 	kSaveSlice     = "save-slice"
+	kCreateMap     = "create-map"
+	kUpdatesStruct = "updates-model-struct"
+	kDeleteNote    = "delete-soft-root"
 	kUpdatesFull   = "updates-full-save-associations"
 	kUpdatesMap    = "updates-model-map"
 	kUpdateCol     = "update-column"
 	kDelete        = "delete"
 )
 
-var allKinds = []string{kCreate, kCreateSlice, kCreateBatches, kSave, kSaveMissing, kSaveSlice, kUpdatesFull, kUpdatesMap, kUpdateCol, kDelete, kDelete}
+var allKinds = []string{kCreate, kCreateSlice, kCreateBatches, kSave, kSaveMissing, kSaveSlice, kCreateMap, kUpdatesStruct, kDeleteNote, kUpdatesFull, kUpdatesMap, kUpdateCol, kDelete, kDelete}
 
 func ownerSlice(specs []OwnerSpec) []Owner {
 	out := make([]Owner, len(specs))
 	for i, s := range specs {
-		out[i] = *s.build()
+		s.buildInto(&out[i])
 	}
 	return out
 }
@@ -485,19 +559,96 @@ func ownerPtrs(specs []OwnerSpec) []*Owner {
 
 // exec runs the operation on db with a freshly built record graph.
 func (op Op) exec(db *gorm.DB) *gorm.DB {
+	if !op.InTx {
+		return op.exec1(db)
+	}
+	// the operation inside a caller's transaction that is committed whatever
+	// the operation reports: only CreateInBatches protects itself there (with
+	// a SAVEPOINT), so only it is generated with InTx
+	var res *gorm.DB
+	err := db.Transaction(func(tx *gorm.DB) error {
+		res = op.exec1(tx)
+		return nil
+	})
+	out := &gorm.DB{}
+	if res != nil {
+		out.Error, out.RowsAffected = res.Error, res.RowsAffected
+	}
+	if out.Error == nil {
+		out.Error = err
+	}
+	return out
+}
+
+func ownerMap(s OwnerSpec) map[string]interface{} {
+	m := map[string]interface{}{"name": s.Name, "val": s.Val}
+	if s.ID != 0 {
+		m["id"] = s.ID
+	}
+	if s.Code != "" {
+		m["code"] = s.Code
+	}
+	return m
+}
+
+func (op Op) exec1(db *gorm.DB) *gorm.DB {
+	root := db
 	if op.Returning {
 		db = db.Clauses(clause.Returning{})
+	}
+	switch op.Conflict {
+	case "nothing":
+		db = db.Clauses(clause.OnConflict{DoNothing: true})
+	case "update-all":
+		db = db.Clauses(clause.OnConflict{UpdateAll: true})
+	case "columns":
+		db = db.Clauses(clause.OnConflict{Columns: []clause.Column{{Name: "id"}}, DoUpdates: clause.AssignmentColumns([]string{"name", "val"})})
+	}
+	if len(op.Cols) > 0 {
+		db = db.Select(append([]string(nil), op.Cols...))
+	}
+	if len(op.Omit) > 0 {
+		db = db.Omit(op.Omit...)
+	}
+	if op.BatchVia == "session" {
+		db = db.Session(&gorm.Session{CreateBatchSize: op.Batch})
+	}
+	// a handle handed to another chain as an argument (sub-query)
+	subquery := func() *gorm.DB {
+		return root.Session(&gorm.Session{NewDB: true}).Model(&Owner{}).Select("id").Where("id IN ?", op.IDs)
 	}
 	switch op.Kind {
 	case kCreate:
 		return db.Create(op.Owners[0].build())
 	case kCreateSlice:
+		if op.Form == "array" {
+			var v [2]Owner
+			op.Owners[0].buildInto(&v[0])
+			op.Owners[1].buildInto(&v[1])
+			return db.Create(&v)
+		}
 		if op.Ptrs {
 			v := ownerPtrs(op.Owners)
 			return db.Create(&v)
 		}
 		v := ownerSlice(op.Owners)
 		return db.Create(&v)
+	case kCreateMap:
+		switch op.Form {
+		case "map":
+			return db.Model(&Owner{}).Create(ownerMap(op.Owners[0]))
+		case "ptr-map":
+			m := ownerMap(op.Owners[0])
+			return db.Model(&Owner{}).Create(&m)
+		}
+		ms := make([]map[string]interface{}, len(op.Owners))
+		for i, o := range op.Owners {
+			ms[i] = ownerMap(o)
+		}
+		if op.Form == "ptr-maps" {
+			return db.Model(&Owner{}).Create(&ms)
+		}
+		return db.Model(&Owner{}).Create(ms)
 	case kCreateBatches:
 		if op.Ptrs {
 			v := ownerPtrs(op.Owners)
@@ -515,13 +666,34 @@ func (op Op) exec(db *gorm.DB) *gorm.DB {
 		v := ownerSlice(op.Owners)
 		return db.Save(&v)
 	case kUpdatesFull:
+		if op.FullVia == "config" {
+			return db.Updates(op.Owners[0].build())
+		}
 		return db.Session(&gorm.Session{FullSaveAssociations: true}).Updates(op.Owners[0].build())
 	case kUpdatesMap:
-		return db.Model(op.Owners[0].build()).Updates(map[string]interface{}{"name": op.NewName, "val": op.NewVal})
+		vals := map[string]interface{}{"name": op.NewName, "val": op.NewVal}
+		if op.Form == "slice-model" {
+			v := make([]Owner, len(op.IDs))
+			for i, id := range op.IDs {
+				v[i] = Owner{ID: id}
+			}
+			return db.Model(&v).Updates(vals)
+		}
+		return db.Model(op.Owners[0].build()).Updates(vals)
+	case kUpdatesStruct:
+		return db.Model(&Owner{ID: op.IDs[0]}).Updates(Owner{Name: op.NewName, Val: op.NewVal})
 	case kUpdateCol:
 		switch op.Form {
 		case "struct":
 			return db.Model(&Owner{ID: op.IDs[0]}).Update("name", op.NewName)
+		case "expr":
+			return db.Model(&Owner{ID: op.IDs[0]}).Update("val", gorm.Expr("val + ?", 100))
+		case "update-column":
+			return db.Model(&Owner{ID: op.IDs[0]}).UpdateColumn("name", op.NewName)
+		case "update-columns":
+			return db.Model(&Owner{}).Where("id IN ?", op.IDs).UpdateColumns(map[string]interface{}{"name": op.NewName, "val": 100})
+		case "subquery":
+			return db.Model(&Owner{}).Where("id IN (?)", subquery()).Update("name", op.NewName)
 		default:
 			return db.Model(&Owner{}).Where("id IN ?", op.IDs).Update("name", op.NewName)
 		}
@@ -542,9 +714,27 @@ func (op Op) exec(db *gorm.DB) *gorm.DB {
 				v[i] = Owner{ID: id}
 			}
 			return tx.Delete(&v)
+		case "pk":
+			if len(op.IDs) == 1 {
+				return tx.Delete(&Owner{}, op.IDs[0])
+			}
+			return tx.Delete(&Owner{}, op.IDs)
+		case "model-dest":
+			return tx.Model(&Owner{ID: op.IDs[0]}).Delete(&Owner{})
+		case "subquery":
+			return tx.Where("id IN (?)", subquery()).Delete(&Owner{})
 		default:
 			return tx.Where("id IN ?", op.IDs).Delete(&Owner{})
 		}
+	case kDeleteNote:
+		tx := db
+		if op.Unscoped {
+			tx = tx.Unscoped()
+		}
+		if op.Form == "struct" {
+			return tx.Delete(&Note{ID: op.IDs[0]})
+		}
+		return tx.Where("id IN ?", op.IDs).Delete(&Note{})
 	}
 	panic("unknown operation kind " + op.Kind)
 }
@@ -562,6 +752,9 @@ func schemaDDL() string {
 	ddlOnce.Do(func() {
 		d := testdb.Open(testdb.Options{Config: gorm.Config{DisableForeignKeyConstraintWhenMigrating: true}})
 		defer d.Close()
+		if err := setupJoin(d.DB); err != nil {
+			panic("harness: SetupJoinTable: " + err.Error())
+		}
 		if err := d.AutoMigrate(allModels...); err != nil {
 			panic("harness: AutoMigrate: " + err.Error())
 		}
@@ -581,6 +774,43 @@ func schemaDDL() string {
 		ddl = strings.Join(parts, ";\n") + ";"
 	})
 	return ddl
+}
+
+// registerPlugin installs callbacks the way a plugin does: after the main
+// statement and after the After* hooks of each write pipeline. They consult the
+// hook plan, so every one of their invocations is failed in turn too.
+func registerPlugin(db *gorm.DB) {
+	cb := func(name string) func(*gorm.DB) {
+		return func(db *gorm.DB) {
+			if db.Error == nil {
+				if err := hook(db, "Plugin", name); err != nil {
+					db.AddError(err)
+				}
+			}
+		}
+	}
+	must := func(err error) {
+		if err != nil {
+			panic("harness: registering callback: " + err.Error())
+		}
+	}
+	// Both neighbours are named: a callback registered with After(x) alone is
+	// sorted behind gorm:commit_or_rollback_transaction, i.e. it would run after
+	// the COMMIT and its error could not undo anything (by the registrant's choice).
+	const end = "gorm:commit_or_rollback_transaction"
+	must(db.Callback().Create().After("gorm:create").Before("gorm:save_after_associations").Register("c05:created", cb("create:after-statement")))
+	must(db.Callback().Create().After("gorm:after_create").Before(end).Register("c05:create_done", cb("create:after-hooks")))
+	must(db.Callback().Update().After("gorm:update").Before("gorm:save_after_associations").Register("c05:updated", cb("update:after-statement")))
+	must(db.Callback().Update().After("gorm:after_update").Before(end).Register("c05:update_done", cb("update:after-hooks")))
+	must(db.Callback().Delete().After("gorm:delete").Before("gorm:after_delete").Register("c05:deleted", cb("delete:after-statement")))
+	must(db.Callback().Delete().After("gorm:after_delete").Before(end).Register("c05:delete_done", cb("delete:after-hooks")))
+}
+
+func setupJoin(db *gorm.DB) error {
+	if err := db.SetupJoinTable(&Owner{}, "Tags", &OwnerTag{}); err != nil {
+		return err
+	}
+	return db.SetupJoinTable(&Tag{}, "Owners", &OwnerTag{})
 }
 
 // content is a full copy of all tables.
@@ -671,7 +901,7 @@ func materialize(in InitSpec) (*content, error) {
 	for _, c := range in.Companies {
 		co := &Company{Name: c.Name}
 		if c.Region != nil {
-			co.Region = &Region{Name: c.Region.Name}
+			co.Region = Region{Name: c.Region.Name}
 		}
 		if err := d.Create(co).Error; err != nil {
 			return nil, fmt.Errorf("Create(&Company{Name: %q, Region: %v}): %w", c.Name, c.Region != nil, err)
@@ -697,12 +927,32 @@ func materialize(in InitSpec) (*content, error) {
 
 // freshDB opens a new database holding exactly the initial content.
 func freshDB(base *content, op Op) *testdb.DB {
-	d := testdb.Open(testdb.Options{
-		Config:      gorm.Config{NowFunc: func() time.Time { return opNow }},
-		NoReturning: op.NoReturning,
-	})
+	cfg := gorm.Config{NowFunc: func() time.Time { return opNow }}
+	for _, c := range op.Config {
+		switch c {
+		case "PrepareStmt":
+			cfg.PrepareStmt = true
+		case "TranslateError":
+			cfg.TranslateError = true
+		}
+	}
+	if op.BatchVia == "config" {
+		cfg.CreateBatchSize = op.Batch
+	}
+	if op.FullVia == "config" {
+		cfg.FullSaveAssociations = true
+	}
+	d := testdb.Open(testdb.Options{Config: cfg, NoReturning: op.NoReturning})
 	if _, err := d.SQL.Exec(schemaDDL()); err != nil {
 		panic("harness: DDL: " + err.Error())
+	}
+	if op.Plugin {
+		registerPlugin(d.DB)
+	}
+	if op.CustomJoin {
+		if err := setupJoin(d.DB); err != nil {
+			panic("harness: SetupJoinTable: " + err.Error())
+		}
 	}
 	tx, err := d.SQL.Begin()
 	if err != nil {
@@ -799,6 +1049,8 @@ type runResult struct {
 	hooks     []hookCall
 	nexts     []nextCall
 	events    []recdrv.Event
+	pre       string // tables right before the operation (after the generated history)
+	histErr   string
 	openTx    int
 	inUse     int
 	fired     bool
@@ -813,6 +1065,32 @@ func runOnce(base *content, op Op, f fault) runResult {
 		if ps.Use {
 			var n int64
 			s.Model(&Owner{}).Count(&n)
+		}
+	}
+	var r runResult
+	r.pre = base.text
+	// ... and writes made through the handle: one that succeeds, one whose
+	// first hook fails (it must itself be reported and leave nothing)
+	for _, h := range op.Hist {
+		switch h {
+		case "prior-write":
+			plan = nil
+			if err := d.DB.Create(&Tag{Name: "hist"}).Error; err != nil {
+				r.histErr = "prior fault-free Create(&Tag{}) through the handle failed: " + err.Error()
+			}
+		case "prior-failed-write":
+			plan = &hookPlan{failAt: 0, cancelAt: -1, rec: d.Rec}
+			if err := d.DB.Create(&Tag{Name: "hist-fail"}).Error; !errors.Is(err, errHook) {
+				r.histErr = fmt.Sprintf("prior Create(&Tag{}) whose BeforeSave hook fails reported %v", err)
+			}
+			plan = nil
+		}
+	}
+	if len(op.Hist) > 0 {
+		if c, err := readContent(d.SQL); err != nil {
+			r.histErr = "tables unreadable after the history: " + err.Error()
+		} else {
+			r.pre = c.text
 		}
 	}
 	d.Rec.Reset()
@@ -836,7 +1114,6 @@ func runOnce(base *content, op Op, f fault) runResult {
 	} else {
 		d.Rec.SetFault(nil)
 	}
-	var r runResult
 	d.Rec.TrackRows(true)
 	d.Rec.SetRowsFault(func(idx int, query string) error {
 		r.nexts = append(r.nexts, nextCall{query, d.Rec.Faultable()})
@@ -951,6 +1228,9 @@ func checkCase(t fataler, c Case, base *content) {
 		return
 	}
 	ref := runOnce(base, op, fault{})
+	if ref.histErr != "" {
+		t.Fatalf("C05 violated: %s\n  case: %s", ref.histErr, desc)
+	}
 	if ref.err != nil {
 		t.Fatalf("C05 violated: the fault-free operation failed: %v\n  case: %s\n  driver calls:\n%s", ref.err, desc, eventLog(ref.events))
 	}
@@ -960,7 +1240,12 @@ func checkCase(t fataler, c Case, base *content) {
 	if ref.openTx != 0 || ref.inUse != 0 {
 		t.Fatalf("C05 violated: after the fault-free operation %d transaction(s) open, %d connection(s) checked out\n  case: %s\n  driver calls:\n%s", ref.openTx, ref.inUse, desc, eventLog(ref.events))
 	}
-	if ref.dump == base.text {
+	if ref.dump == ref.pre && op.Conflict == "nothing" {
+		// every record met ON CONFLICT DO NOTHING: nothing to apply, nothing to check
+		evid.Excluded("vacuous-on-conflict-do-nothing")
+		return
+	}
+	if ref.dump == ref.pre {
 		if len(op.Pre) > 0 {
 			t.Fatalf("C05 violated: the fault-free operation reported success but changed nothing, after sessions %v were derived from the handle (the same operation without them applies)\n  case: %s\n  driver calls:\n%s", op.Pre, desc, eventLog(ref.events))
 		}
@@ -996,6 +1281,9 @@ func checkCase(t fataler, c Case, base *content) {
 		evid.Case(fdesc, nt, nil, append(append(append([]string(nil), shapeList...), "fault:"+posLabel), more...)...)
 		where := fmt.Sprintf("\n  case: %s\n  fault: %s (%s) of N=%d driver calls, H=%d hook invocations\n  driver calls of the faulted run:\n%s  hooks of the faulted run: %v",
 			desc, f, posLabel, N, H, eventLog(r.events), hookNames(r.hooks))
+		if r.histErr != "" {
+			t.Fatalf("C05 violated: %s%s", r.histErr, where)
+		}
 		if !r.fired {
 			t.Fatalf("harness: the planned fault was never reached (the operation is not deterministic)%s", where)
 		}
@@ -1011,8 +1299,8 @@ func checkCase(t fataler, c Case, base *content) {
 		if r.dumpErr != nil {
 			t.Fatalf("C05 violated: tables unreadable after the failed operation: %v%s", r.dumpErr, where)
 		}
-		if r.dump != base.text {
-			t.Fatalf("C05 violated: the operation failed (%v) but was partly applied%s\n  tables before:\n%s  tables after:\n%s", r.err, where, indent(base.text), indent(r.dump))
+		if r.dump != r.pre {
+			t.Fatalf("C05 violated: the operation failed (%v) but was partly applied%s\n  tables before:\n%s  tables after:\n%s", r.err, where, indent(r.pre), indent(r.dump))
 		}
 	}
 
@@ -1072,12 +1360,12 @@ func checkCase(t fataler, c Case, base *content) {
 		switch {
 		case r.err == nil && r.dump == ref.dump:
 			// completed in spite of the cancellation: allowed
-		case r.err == nil && r.dump == base.text:
+		case r.err == nil && r.dump == r.pre:
 			t.Fatalf("C05 violated: a failing step was not reported: the context of the operation ended inside a hook, nothing was stored, and result.Error is nil (RowsAffected %d)%s", r.rows, where)
 		case r.err == nil:
-			t.Fatalf("C05 violated: result.Error is nil but the operation was only partly applied after its context ended inside a hook%s\n  tables before:\n%s  tables after:\n%s", where, indent(base.text), indent(r.dump))
-		case r.dump != base.text:
-			t.Fatalf("C05 violated: the operation failed (%v) but was partly applied%s\n  tables before:\n%s  tables after:\n%s", r.err, where, indent(base.text), indent(r.dump))
+			t.Fatalf("C05 violated: result.Error is nil but the operation was only partly applied after its context ended inside a hook%s\n  tables before:\n%s  tables after:\n%s", where, indent(r.pre), indent(r.dump))
+		case r.dump != r.pre:
+			t.Fatalf("C05 violated: the operation failed (%v) but was partly applied%s\n  tables before:\n%s  tables after:\n%s", r.err, where, indent(r.pre), indent(r.dump))
 		}
 	}
 }
@@ -1102,6 +1390,42 @@ func opShapes(op Op, multi bool) []string {
 	if op.AuditVia != "" {
 		shape["hooks:audit-via-derived-session"] = true
 	}
+	if op.CustomJoin {
+		shape["join:custom-model-with-hooks"] = true
+	}
+	if op.Form != "" && op.Kind != kDelete {
+		shape["form:"+op.Kind+":"+op.Form] = true
+	}
+	if op.Ptrs {
+		shape["form:slice-of-pointers"] = true
+	}
+	if op.Conflict != "" {
+		shape["clause:on-conflict:"+op.Conflict] = true
+	}
+	if len(op.Cols) > 0 {
+		shape["chain:select:"+strings.Join(op.Cols, ",")] = true
+	}
+	if len(op.Omit) > 0 {
+		shape["chain:omit:"+strings.ReplaceAll(strings.Join(op.Omit, ","), clause.Associations, "clause.Associations")] = true
+	}
+	if op.BatchVia != "" {
+		shape["option:create-batch-size:"+op.BatchVia] = true
+	}
+	if op.FullVia != "" {
+		shape["option:full-save-associations:"+op.FullVia] = true
+	}
+	for _, c := range op.Config {
+		shape["config:"+c] = true
+	}
+	if op.InTx {
+		shape["history:inside-transaction(savepoint)"] = true
+	}
+	for _, h := range op.Hist {
+		shape["history:"+h] = true
+	}
+	if op.Plugin {
+		shape["hooks:plugin-callbacks"] = true
+	}
 	if op.Returning {
 		shape["clause:returning"] = true
 	}
@@ -1109,6 +1433,12 @@ func opShapes(op Op, multi bool) []string {
 		shape["pre:session:"+ps.Opt] = true
 		if ps.Use {
 			shape["pre:session-used"] = true
+		}
+	}
+	if op.Kind == kDeleteNote {
+		shape["delete:form:"+op.Form] = true
+		if op.Unscoped {
+			shape["delete:unscoped"] = true
 		}
 	}
 	if op.Kind == kDelete {
@@ -1186,9 +1516,9 @@ func checkNatural(t fataler, c Case, base *content) {
 	evid.Case(desc+" fault=none/natural:unique-collision", multi && firstWrite >= 0 && failedAt > firstWrite, nil,
 		append(opShapes(c.Op, multi), "fault:natural:unique-collision:"+failLabel)...)
 	if r.err == nil {
-		t.Fatalf("C05 violated: a failing step was not reported: the last record carries the unique code %q of another owner (its INSERT/UPDATE violates the unique index) but result.Error is nil (RowsAffected %d)%s\n  tables before:\n%s  tables after:\n%s", last.Code, r.rows, where, indent(base.text), indent(r.dump))
+		t.Fatalf("C05 violated: a failing step was not reported: the last record carries the unique code %q of another owner (its INSERT/UPDATE violates the unique index) but result.Error is nil (RowsAffected %d)%s\n  tables before:\n%s  tables after:\n%s", last.Code, r.rows, where, indent(r.pre), indent(r.dump))
 	}
-	if !strings.Contains(r.err.Error(), "UNIQUE constraint failed") {
+	if !strings.Contains(r.err.Error(), "UNIQUE constraint failed") && !errors.Is(r.err, gorm.ErrDuplicatedKey) { // the latter under Config.TranslateError
 		t.Fatalf("C05 violated: result.Error does not carry the constraint violation of the failing statement: %q%s", r.err.Error(), where)
 	}
 	if r.openTx != 0 || r.inUse != 0 {
@@ -1197,8 +1527,8 @@ func checkNatural(t fataler, c Case, base *content) {
 	if r.dumpErr != nil {
 		t.Fatalf("C05 violated: tables unreadable after the failed operation: %v%s", r.dumpErr, where)
 	}
-	if r.dump != base.text {
-		t.Fatalf("C05 violated: the operation failed (%v) but was partly applied%s\n  tables before:\n%s  tables after:\n%s", r.err, where, indent(base.text), indent(r.dump))
+	if r.dump != r.pre {
+		t.Fatalf("C05 violated: the operation failed (%v) but was partly applied%s\n  tables before:\n%s  tables after:\n%s", r.err, where, indent(r.pre), indent(r.dump))
 	}
 }
 
@@ -1350,10 +1680,32 @@ func drawGraph(t *rapid.T, o *OwnerSpec, ids *idSources, small bool) {
 		if tg.ID == 0 {
 			tg.Name = "tg-" + nameGen.Draw(t, "tag-name")
 		}
+		tg.BackRef = ids != nil && rapid.IntRange(0, 3).Draw(t, "tag-backref") == 0
 		o.Tags = append(o.Tags, tg)
 	}
 	for i, n := 0, countGen(maxKids).Draw(t, "notes"); i < n; i++ {
 		o.Notes = append(o.Notes, NoteSpec{ID: id(func() *idSource { return ids.notes }, "note-id"), Text: "nt-" + nameGen.Draw(t, "note")})
+	}
+	if rapid.IntRange(0, 3).Draw(t, "has-badge") == 0 {
+		o.Badge = "bd-" + nameGen.Draw(t, "badge")
+	}
+	// rarely: one relation with more children than the slices gorm collects
+	// association values in are pre-sized for (cap 10)
+	if ids != nil && !small && rapid.IntRange(0, 24).Draw(t, "wide") == 0 {
+		switch rapid.SampledFrom([]string{"items", "tags", "notes"}).Draw(t, "wide-relation") {
+		case "items":
+			for len(o.Items) < 11 {
+				o.Items = append(o.Items, ItemSpec{Name: fmt.Sprintf("it-w%d", len(o.Items)), Qty: 1})
+			}
+		case "tags":
+			for len(o.Tags) < 11 {
+				o.Tags = append(o.Tags, TagSpec{Name: fmt.Sprintf("tg-w%d", len(o.Tags))})
+			}
+		case "notes":
+			for len(o.Notes) < 11 {
+				o.Notes = append(o.Notes, NoteSpec{Text: fmt.Sprintf("nt-w%d", len(o.Notes))})
+			}
+		}
 	}
 }
 
@@ -1401,6 +1753,16 @@ func pickExisting(t *rapid.T, existing []uint, max int) []uint {
 	return out
 }
 
+var colOptions = []struct{ cols, omit []string }{
+	{}, {}, {}, {},
+	{omit: []string{clause.Associations}},
+	{omit: []string{"Tags.*"}},
+	{omit: []string{"Items", "Profile"}},
+	{omit: []string{"Company.Region"}},
+	{cols: []string{"Name", "Val", "Code", "Items", "Tags"}},
+	{cols: []string{"Name", "Val", "Code", "Company", "Badge"}},
+}
+
 var deleteSelects = [][]string{
 	nil, nil,
 	{clause.Associations}, {clause.Associations}, {clause.Associations},
@@ -1414,10 +1776,13 @@ func drawCase(t *rapid.T) (Case, *content) {
 	kind := rapid.SampledFrom(kinds()).Draw(t, "kind")
 	minOwners := 0
 	switch kind {
-	case kSave, kSaveMissing, kUpdatesFull, kUpdatesMap, kUpdateCol, kDelete:
+	case kSave, kSaveMissing, kUpdatesFull, kUpdatesMap, kUpdatesStruct, kUpdateCol, kDelete, kDeleteNote:
 		minOwners = 1
 	}
 	in := drawInit(t, minOwners)
+	if kind == kDeleteNote && len(in.Owners[0].Notes) == 0 {
+		in.Owners[0].Notes = []NoteSpec{{Text: "nt-" + nameGen.Draw(t, "init-note")}}
+	}
 	base, err := materialize(in)
 	if err != nil {
 		b, _ := json.Marshal(in)
@@ -1431,9 +1796,34 @@ func drawCase(t *rapid.T) (Case, *content) {
 		op.AuditVia = "session"
 	}
 	op.Ctx = rapid.IntRange(0, 2).Draw(t, "with-context") == 0
+	op.CustomJoin = rapid.IntRange(0, 3).Draw(t, "custom-join") == 0
 	switch kind {
-	case kSave, kSaveMissing, kUpdatesFull, kUpdatesMap, kUpdateCol, kDelete:
+	case kSave, kSaveMissing, kUpdatesFull, kUpdatesMap, kUpdatesStruct, kUpdateCol, kDelete, kDeleteNote:
 		op.Returning = rapid.Bool().Draw(t, "returning")
+	}
+	op.Plugin = rapid.IntRange(0, 4).Draw(t, "plugin-callbacks") == 0
+	if h := rapid.SampledFrom([]string{"", "", "", "prior-write", "prior-failed-write"}).Draw(t, "history-write"); h != "" {
+		op.Hist = []string{h}
+	}
+	for _, c := range []string{"PrepareStmt", "TranslateError"} {
+		if rapid.IntRange(0, 7).Draw(t, "config-"+c) == 0 {
+			op.Config = append(op.Config, c)
+		}
+	}
+	existingOK := false
+	switch kind {
+	case kCreate, kCreateSlice, kCreateBatches, kCreateMap:
+		op.Conflict = rapid.SampledFrom([]string{"", "", "", "nothing", "update-all", "columns"}).Draw(t, "on-conflict")
+		existingOK = op.Conflict != ""
+	}
+	switch kind {
+	case kCreate, kCreateSlice, kSave, kSaveSlice, kUpdatesFull:
+		if via := rapid.SampledFrom([]string{"", "", "", "session", "config"}).Draw(t, "batch-size-via"); via != "" {
+			op.BatchVia, op.Batch = via, rapid.IntRange(1, 2).Draw(t, "batch-size")
+		}
+	}
+	if kind == kUpdatesFull && rapid.IntRange(0, 2).Draw(t, "full-via-config") == 0 {
+		op.FullVia = "config"
 	}
 	for i, n := 0, rapid.SampledFrom([]int{0, 0, 1, 1, 2}).Draw(t, "pre-sessions"); i < n; i++ {
 		op.Pre = append(op.Pre, PreStep{Opt: rapid.SampledFrom(sessionOptionNames()).Draw(t, "pre-session"), Use: rapid.Bool().Draw(t, "pre-session-use")})
@@ -1441,20 +1831,42 @@ func drawCase(t *rapid.T) (Case, *content) {
 	op.Rot = rapid.IntRange(0, len(faultErrors)-1).Draw(t, "error-rotation")
 	switch kind {
 	case kCreate:
-		op.Owners = []OwnerSpec{drawOwner(t, ids, ids.owners.draw(t, "owner-id", false, true), false)}
+		op.Owners = []OwnerSpec{drawOwner(t, ids, ids.owners.draw(t, "owner-id", existingOK, true), false)}
 	case kCreateSlice:
 		n := rapid.IntRange(1, 3).Draw(t, "owners")
 		for i := 0; i < n; i++ {
-			op.Owners = append(op.Owners, drawOwner(t, ids, ids.owners.draw(t, "owner-id", false, true), true))
+			op.Owners = append(op.Owners, drawOwner(t, ids, ids.owners.draw(t, "owner-id", existingOK, true), true))
 		}
 		op.Ptrs = rapid.Bool().Draw(t, "ptrs")
+		if n == 2 && rapid.IntRange(0, 2).Draw(t, "array") == 0 {
+			op.Form, op.Ptrs = "array", false
+		}
+	case kCreateMap:
+		op.Form = rapid.SampledFrom([]string{"map", "ptr-map", "maps", "ptr-maps"}).Draw(t, "form")
+		n := 1
+		if strings.HasSuffix(op.Form, "maps") {
+			n = rapid.IntRange(1, 3).Draw(t, "owners")
+		}
+		for i := 0; i < n; i++ {
+			op.Owners = append(op.Owners, OwnerSpec{ID: ids.owners.draw(t, "owner-id", existingOK, true), Name: "ow-" + nameGen.Draw(t, "owner-name"), Val: rapid.IntRange(1, 9).Draw(t, "val")})
+		}
+		op.Audit, op.AuditVia = false, ""
+		if op.Form == "maps" {
+			// Create of a non-pointer []map fails by itself on a dialect with
+			// RETURNING (gorm.Scan has no arm for that destination: "unsupported
+			// Scan, storing driver.Value type int64 into type *map"); the error is
+			// reported and nothing is applied, so C05 holds, but there is nothing
+			// to enumerate. Generated without RETURNING only.
+			op.NoReturning = true
+		}
 	case kCreateBatches:
 		n := rapid.IntRange(2, 4).Draw(t, "owners")
 		for i := 0; i < n; i++ {
-			op.Owners = append(op.Owners, drawOwner(t, ids, ids.owners.draw(t, "owner-id", false, true), true))
+			op.Owners = append(op.Owners, drawOwner(t, ids, ids.owners.draw(t, "owner-id", existingOK, true), true))
 		}
 		op.Batch = rapid.IntRange(1, n).Draw(t, "batch")
 		op.Ptrs = rapid.Bool().Draw(t, "ptrs")
+		op.InTx = op.Batch < n && rapid.IntRange(0, 2).Draw(t, "inside-transaction") == 0
 	case kSave:
 		// zero key (insert), key of an existing row (update), explicit key
 		// without a row (update of nothing, then the upsert fallback)
@@ -1485,26 +1897,51 @@ func drawCase(t *rapid.T) (Case, *content) {
 		op.Owners = []OwnerSpec{drawOwner(t, ids, id, false)}
 		op.NewName = "new-" + nameGen.Draw(t, "new-name")
 		op.NewVal = rapid.IntRange(10, 19).Draw(t, "new-val")
+		if kind == kUpdatesMap && rapid.IntRange(0, 2).Draw(t, "slice-model") == 0 {
+			op.Form = "slice-model"
+			op.IDs = pickExisting(t, base.ids["owners"], 3)
+		}
+	case kUpdatesStruct:
+		op.IDs = pickExisting(t, base.ids["owners"], 1)
+		op.NewName = "new-" + nameGen.Draw(t, "new-name")
+		op.NewVal = rapid.IntRange(10, 19).Draw(t, "new-val")
 	case kUpdateCol:
-		op.Form = rapid.SampledFrom([]string{"struct", "where"}).Draw(t, "form")
+		op.Form = rapid.SampledFrom([]string{"struct", "where", "expr", "update-column", "update-columns", "subquery"}).Draw(t, "form")
 		op.IDs = pickExisting(t, base.ids["owners"], 3)
-		if op.Form == "struct" {
+		switch op.Form {
+		case "struct", "expr", "update-column":
 			op.IDs = op.IDs[:1]
 		}
 		op.NewName = "new-" + nameGen.Draw(t, "new-name")
-	case kDelete:
-		op.Form = rapid.SampledFrom([]string{"struct", "struct", "slice", "where"}).Draw(t, "form")
-		op.IDs = pickExisting(t, base.ids["owners"], 3)
+	case kDeleteNote:
+		op.Form = rapid.SampledFrom([]string{"struct", "where"}).Draw(t, "form")
+		op.IDs = pickExisting(t, base.ids["notes"], 3)
 		if op.Form == "struct" {
+			op.IDs = op.IDs[:1]
+		}
+		op.Unscoped = rapid.IntRange(0, 2).Draw(t, "unscoped") == 0
+	case kDelete:
+		op.Form = rapid.SampledFrom([]string{"struct", "struct", "slice", "where", "pk", "model-dest", "subquery"}).Draw(t, "form")
+		op.IDs = pickExisting(t, base.ids["owners"], 3)
+		if op.Form == "struct" || op.Form == "model-dest" {
 			op.IDs = op.IDs[:1]
 		}
 		op.Select = rapid.SampledFrom(deleteSelects).Draw(t, "select")
 		op.Unscoped = rapid.IntRange(0, 3).Draw(t, "unscoped") == 0
 	}
+	// Select / Omit of columns and associations (the unique code is always
+	// among the selected columns)
+	switch {
+	case kind == kCreate, kind == kCreateSlice, kind == kUpdatesFull, kind == kSave && op.Owners[0].ID != 900:
+		co := rapid.SampledFrom(colOptions).Draw(t, "select-omit")
+		op.Cols, op.Omit = co.cols, co.omit
+	}
 	// natural failure: the last record takes the unique code of an existing
-	// owner other than itself
-	switch kind {
-	case kCreate, kCreateSlice, kCreateBatches, kSave, kSaveMissing, kSaveSlice, kUpdatesFull:
+	// owner other than itself (not under ON CONFLICT DO NOTHING, which also
+	// swallows a unique-index conflict, nor under a column-list upsert)
+	switch {
+	case op.Conflict == "nothing", op.Conflict == "columns": // "columns" rewrites name and val only: an upserted row never takes the code
+	case kind == kCreate, kind == kCreateSlice, kind == kCreateBatches, kind == kCreateMap, kind == kSave, kind == kSaveMissing, kind == kSaveSlice, kind == kUpdatesFull:
 		last := &op.Owners[len(op.Owners)-1]
 		// ... and not rewritten by the operation itself (a Save of a slice
 		// upserts its earlier elements, which clears their code)
